@@ -125,8 +125,52 @@ func (e *Emulator) instruction(ip model.Addr) (deps.Instruction, error) {
 	return ins, nil
 }
 
+// accessError is an error of Step: a memory access of the emulated instruction
+// doesn't fit into the address space.
+//
+// Expression evaluation callbacks have no error path, so the value is passed
+// from checkAccess to Step as a panic value. It never leaves Step as a panic.
+type accessError struct {
+	addr model.Addr
+	w    expr.Width
+}
+
+func (e accessError) Error() string {
+	return fmt.Sprintf(
+		"memory access of %d bytes at address 0x%x exceeds the address space",
+		e.w, e.addr)
+}
+
+// checkAccess stops the current Step with an error if w bytes at address addr
+// don't fit into the address space. An exclusive end of such an access is not
+// representable in model.Addr (it's either 2^64 or it wraps around zero), so
+// no memory is able to serve it.
+func checkAccess(addr model.Addr, w expr.Width) {
+	if addr+model.Addr(w) < addr {
+		panic(accessError{addr: addr, w: w})
+	}
+}
+
 // Step performs a single instruction step of an emulation.
-func (e *Emulator) Step() (*Step, error) {
+//
+// If any memory access of the instruction doesn't fit into the address space,
+// an error is returned, no effect of the instruction is applied and the
+// instruction pointer is not changed. Values obtained from the state provider
+// before the failing access stay stored in the state.
+func (e *Emulator) Step() (_ *Step, err error) {
+	defer func() {
+		r := recover()
+		if r == nil {
+			return
+		}
+
+		aErr, ok := r.(accessError)
+		if !ok {
+			panic(r)
+		}
+		err = aErr
+	}()
+
 	ip := e.MustIP()
 	ins, err := e.instruction(ip)
 	if err != nil {
@@ -139,6 +183,15 @@ func (e *Emulator) Step() (*Step, error) {
 	efs = exprtransform.EffectsApply(efs, func(ex expr.Expr) expr.Expr {
 		return e.eval(ex, s)
 	})
+
+	// All stores are checked before the first effect is applied, so a
+	// failing instruction is never applied partially.
+	for _, ef := range efs {
+		if mStore, ok := ef.(expr.MemStore); ok {
+			addr, _ := expr.ConstUint[model.Addr](mStore.Addr().(expr.Const))
+			checkAccess(addr, mStore.Width())
+		}
+	}
 
 	var jumped bool
 	for _, ef := range efs {
@@ -226,6 +279,8 @@ func (e *Emulator) evalRegsFully(ex expr.Expr, s *Step) expr.Expr {
 // in the memory, it's obtained using stateProvider interface and stored in the
 // memory storage.
 func (e *Emulator) memValue(key expr.Key, addr model.Addr, w expr.Width) expr.Const {
+	checkAccess(addr, w)
+
 	if val, ok := e.State.Mems.Load(key, addr, w); ok {
 		return exprtransform.ConstFold(val).(expr.Const)
 	}
